@@ -172,7 +172,7 @@ pub fn run(ctx: &Ctx) -> Outcome {
     // the longer ones; the smaller trees get all of them
     let quick = ctx.tier == Tier::Quick;
     let short_len = texts.iter().filter(|t| t.chars().count() <= 2).count();
-    let cfg = SweepCfg { prop: "C05", backtrack_limit: Some(20_000), step_cap: Some(3_000_000), shadow: true };
+    let cfg = SweepCfg { prop: "C05", backtrack_limit: Some(20_000), step_cap: Some(3_000_000), shadow: true, casei_every: 0 };
     let acc = sweep(&cfg, &sp.patterns, |c: &Case<'_>, acc| {
         let mut multibyte_spans = false;
         let reduced = quick && c.node.size() >= 4;
